@@ -339,6 +339,11 @@ def apply(doc, c):
             cur[leaf] = copy.deepcopy(c["value"])
         else:
             cur[leaf] = copy.deepcopy(c["value"])
+            if c.get("first"):
+                # the new member is listed before the members that were there (JSON objects are unordered: the answer may not depend on it)
+                items = [(leaf, cur[leaf])] + [(k, v) for k, v in cur.items() if k != leaf]
+                cur.clear()
+                cur.update(items)
     for k, v in (c.get("also_set_top") or {}).items():
         out[k] = v
     if c.get("also_set") or c.get("also_del"):
